@@ -368,22 +368,34 @@ func (m *mergerModel) fullRangeHeader(l ssa.Instruction) ssa.Instruction {
 	if sf, _ := loadedField(ia.X); sf != m.mReaders {
 		return nil
 	}
-	inc, ok := ia.Index.(*ssa.BinOp)
-	if !ok || inc.Op != token.ADD {
-		return nil
+	// the counter: go/ssa's range form k = φ(−1, k+1) used as k+1, or a written
+	// loop i = φ(0, i+1) used as i
+	var phi *ssa.Phi
+	var cur ssa.Value // the value compared with the length and used as index
+	var wantStart int64
+	if inc, ok := ia.Index.(*ssa.BinOp); ok && inc.Op == token.ADD {
+		if k, ok := constInt(inc.Y); !ok || k != 1 {
+			return nil
+		}
+		phi, _ = inc.X.(*ssa.Phi)
+		cur, wantStart = inc, -1
+	} else if p, ok := ia.Index.(*ssa.Phi); ok {
+		phi, cur, wantStart = p, p, 0
 	}
-	if k, ok := constInt(inc.Y); !ok || k != 1 {
-		return nil
-	}
-	phi, ok := inc.X.(*ssa.Phi)
-	if !ok {
+	if phi == nil {
 		return nil
 	}
 	start := false
 	for _, e := range phi.Edges {
-		if k, ok := constInt(e); ok && k == -1 {
+		if k, ok := constInt(e); ok && k == wantStart {
 			start = true
-		} else if e != ssa.Value(inc) {
+			continue
+		}
+		step, ok := e.(*ssa.BinOp)
+		if !ok || step.Op != token.ADD || step.X != ssa.Value(phi) {
+			return nil
+		}
+		if k, ok := constInt(step.Y); !ok || k != 1 {
 			return nil
 		}
 	}
@@ -392,14 +404,17 @@ func (m *mergerModel) fullRangeHeader(l ssa.Instruction) ssa.Instruction {
 		return nil
 	}
 	cmp, ok := iff.Cond.(*ssa.BinOp)
-	if !ok || cmp.Op != token.LSS || cmp.X != ssa.Value(inc) {
+	if !ok || cmp.Op != token.LSS || cmp.X != cur {
 		return nil
 	}
 	ln, ok := cmp.Y.(*ssa.Call)
 	if !ok {
 		return nil
 	}
-	if cc, isLen := isBuiltinCall(ln, "len"); !isLen || cc.Args[0] != ia.X {
+	// (a written loop evaluates len(m.readers) and m.readers[k] from separate loads:
+	// same expression; Merger.readers is not assigned inside such a loop – the
+	// consuming-region check would see the store)
+	if cc, isLen := isBuiltinCall(ln, "len"); !isLen || (cc.Args[0] != ia.X && symKey(cc.Args[0]) != symKey(ia.X)) {
 		return nil
 	}
 	return cmp
